@@ -274,3 +274,7 @@ func NondetU256Below(name string, bound *uint256.Int) *uint256.Int {
 // RegisterKey tells the executor which address / public key belongs to a
 // private key (natively a no-op: the real cryptography is used).
 func RegisterKey(privHex string, addr, pub []byte) {}
+
+// SetMapOrder selects the iteration order the executor uses for Go maps from
+// now on (0 ascending, 1 descending, 2 rotated); natively Go randomises.
+func SetMapOrder(mode int) {}
